@@ -63,7 +63,7 @@
 use simstd::{
     sync::{
         atomic::{AtomicBool, Ordering},
-        mpsc::SyncSender as Sender,
+        mpsc::{SyncSender as Sender, TrySendError},
         Arc, Mutex,
     },
     thread::{self, JoinHandle},
@@ -74,6 +74,7 @@ use std::{
     fs::File,
     io::{self, Read},
     path::Path,
+    time::Duration,
 };
 #[cfg(not(pest_parser_pest_verif))]
 use std::{
